@@ -85,6 +85,67 @@ fn main() {
             eprintln!("corpus {}: {} cases, {} failures", p.id(), n, fails.len());
             std::process::exit(if fails.is_empty() { 0 } else { 1 });
         }
+        "fuzz-export" => {
+            // fuzz-export <ID|all> <dir> <n>: write proptest-generated cases of the property in the fuzz byte format
+            let owner = args.get(2).map(|s| s.as_str()).unwrap_or("all");
+            let dir = PathBuf::from(args.get(3).cloned().unwrap_or_else(|| "corpus-run".into()));
+            let n: usize = args.get(4).and_then(|s| s.parse().ok()).unwrap_or(200);
+            let _ = std::fs::create_dir_all(&dir);
+            let allowed = verif::fuzzcodec::ops_of(if owner == "all" { None } else { Some(owner) });
+            let mut written = 0;
+            for p in props::all() {
+                if owner != "all" && p.id() != owner {
+                    continue;
+                }
+                if !allowed.iter().any(|&i| verif::fuzzcodec::OPS[i].owner == p.id()) {
+                    continue;
+                }
+                let strat = p.strategy(Tier::Quick);
+                let mut mine = 0;
+                for (k, c) in engine::sample_values(&strat, 1 + written as u64, n * 6).into_iter().enumerate() {
+                    if mine >= n {
+                        break;
+                    }
+                    if let Some(b) = verif::fuzzcodec::encode(&c, &allowed) {
+                        // only keep inputs that decode back to the same case
+                        if verif::fuzzcodec::decode(&b, &allowed).as_ref() == Some(&c) {
+                            let _ = std::fs::write(dir.join(format!("{}-{:05}", p.id(), k)), b);
+                            written += 1;
+                            mine += 1;
+                        }
+                    }
+                }
+            }
+            println!("fuzz-export: {} seed inputs written to {}", written, dir.display());
+        }
+        "fuzz-decode" => {
+            // fuzz-decode <ID|all> <file>: print owner and case text of a libFuzzer input
+            let owner = args.get(2).map(|s| s.as_str()).unwrap_or("all");
+            let data = std::fs::read(args.get(3).map(|s| s.as_str()).unwrap_or("")).unwrap_or_default();
+            let allowed = verif::fuzzcodec::ops_of(if owner == "all" { None } else { Some(owner) });
+            match verif::fuzzcodec::decode(&data, &allowed) {
+                Some(c) => {
+                    let o = props::owner_of_op(&c.op).map(|p| p.id()).unwrap_or("?");
+                    println!("{}\t{}", o, c.to_text());
+                }
+                None => println!("?\t"),
+            }
+        }
+        "minimise" => {
+            // minimise <ID> <case file>: structural minimiser on a failing case; prints the minimal case text
+            let p = props::by_id(&args[2]).unwrap_or_else(|| usage());
+            engine::install_quiet_hook();
+            let text = std::fs::read_to_string(&args[3]).unwrap_or_default();
+            let line = text.lines().map(|l| l.trim()).find(|l| !l.is_empty() && !l.starts_with('#')).unwrap_or("").to_string();
+            match nbcase::Case::from_text(&line) {
+                Ok(c) => {
+                    let fails = |c: &nbcase::Case| matches!(engine::catch(|| p.check(c)), Ok(Err(m)) if !m.starts_with("harness:"));
+                    let m = if fails(&c) { engine::minimise(&c, &fails, 20_000) } else { c };
+                    println!("{}", m.to_text());
+                }
+                Err(_) => println!("{}", line),
+            }
+        }
         "selftest-dump" => {
             let n: usize = args.get(2).and_then(|s| s.parse().ok()).unwrap_or(1000);
             let seed: u64 = args.get(3).and_then(|s| s.parse().ok()).unwrap_or(0);
